@@ -146,8 +146,6 @@ def run_case(case):
         p = dic[pid]
         shape = tuple(p.tensor.shape)
         dom = leaves[pid]
-        if pid == "bdsk.origin":
-            return torch.tensor(30.0 + rng.uniform(0, 5, shape))
         v = zoo.draw(rng, dom, shape)
         return torch.tensor(np.asarray(v, dtype=float).reshape(shape))
 
@@ -189,6 +187,8 @@ def run_case(case):
                     val = torch.tensor(np.exp(rng.normal(0, 1, tuple(cur.shape))))
                 else:
                     val = torch.tensor(np.exp(rng.normal(0, 0.5, tuple(cur.shape))))
+                if tid == "bdsk.origin":  # the origin has to stay above the root
+                    val = dic["tree.root_height"].tensor.detach() + torch.tensor(np.exp(rng.normal(-0.3, 0.3, tuple(cur.shape))))
                 if tid == "tree.root_height.shifted":
                     val = torch.tensor(np.exp(rng.normal(0.5, 0.3, tuple(cur.shape))))
                 t.tensor = val
